@@ -25,8 +25,8 @@ RULE = ("configs: Fifo N in {2,3,4,5,7,8} x element type {Unsigned[2] (closure),
         "+ random runs.  distinct_nontrivial = configs explored with >= 20 joint states or >= 100 transferred elements.")
 ASSUMPTIONS = ["vsim executes the emitted VHDL faithfully", "the harness never breaks a documented precondition (no push when "
                "full, no pop when empty); the emitted assert statements cross-check that"]
-REQUIRE = {'quick': {'fifo_elements_transferred': 2000, 'stack_ops': 2000, 'joint_states': 1000},
-           'thorough': {'fifo_elements_transferred': 100000, 'stack_ops': 100000, 'joint_states': 20000}}
+REQUIRE = {'quick': {'array_elements_compared': 500, 'fifo_elements_transferred': 2000, 'stack_ops': 2000, 'joint_states': 1000},
+           'thorough': {'array_elements_compared': 500, 'fifo_elements_transferred': 100000, 'stack_ops': 100000, 'joint_states': 20000}}
 
 
 def gen_cases(tier, seed):
@@ -43,6 +43,13 @@ def gen_cases(tier, seed):
             cases.append({'k': 'fifo2', 'n': n, 'tx': t, 'rx': r, 'seed': seed * 11 + n + t * 4 + r})
     for n in ns:
         cases.append({'k': 'fifo2', 'n': n, 'delay': rnd.randint(1, 3), 'seed': seed * 13 + n})
+    for n in (3, 4, 8):
+        for style in ('twice', 'guarded2'):
+            cases.append({'k': 'fifo2', 'n': n, 'delay': rnd.randint(1, 2), 'style': style, 'seed': seed * 17 + n})
+            t, r = rnd.choice(delays)
+            cases.append({'k': 'fifo2', 'n': n, 'tx': t, 'rx': r, 'style': style, 'seed': seed * 19 + n})
+    for n in (2, 3, 5):
+        cases.append({'k': 'arrcont', 'n': n, 'seed': seed * 23 + n})
     for n in (1, 2, 3, 4, 5, 8):
         for mode in ('NO_OVERFLOW', 'DROP_OLD'):
             cases.append({'k': 'stack', 'n': n, 'mode': mode, 'dw': 2, 'seed': seed})
@@ -185,7 +192,32 @@ def boundary_choice(h, cmds, rnd):
 
 
 # ------------------------------------------------------------------------------------------------ Fifo, two contexts
-def fifo2_src(cname, n, kw):
+def fifo2_src(cname, n, kw, style='plain'):
+    if style == 'twice':
+        # a coroutine consumer that takes two elements per round: its second receive() is elaborated after an earlier pop
+        # in the same context function
+        return fifo2_src(cname, n, kw).split("        @ctx\n        def consumer():")[0] + """        @ctx
+        async def consumer():
+            await self.want_pop
+            self.dout <<= await fifo.receive()
+            self.popped ^= True
+            self.dout <<= await fifo.receive()
+            self.popped ^= True
+"""
+    if style == 'guarded2':
+        # two guarded pops in one context function, selected by the data input of the consumer side
+        return fifo2_src(cname, n, kw).split("        @ctx\n        def consumer():")[0] + """        @ctx
+        def consumer():
+            self.popped <<= False
+            if self.want_pop and self.din[0]:
+                if not fifo.empty():
+                    self.dout <<= fifo.pop()
+                    self.popped <<= True
+            elif self.want_pop:
+                if not fifo.empty():
+                    self.dout <<= fifo.pop()
+                    self.popped <<= True
+"""
     return pg.HEADER + f"""
 class {cname}(Entity):
     clk = Port.input(Bit)
@@ -224,7 +256,7 @@ def run_fifo2(case, cnt):
         dmax = max(case['tx'], case['rx'])
     _n[0] += 1
     cname = f"FF{_n[0]}"
-    src = fifo2_src(cname, n, kw)
+    src = fifo2_src(cname, n, kw, case.get('style', 'plain'))
     try:
         comp = compile_src(src, cname)
     except Rejected as r:
@@ -276,6 +308,120 @@ def run_fifo2(case, cnt):
     cnt['fifo_elements_transferred'] += sum(1 for e in log if e[0] == 'pop')
     cnt['fifo2_max_occupancy_reached'] += int(occ_max == n - 1)
     cnt['fifo2_configs'] += 1
+    return src, None
+
+
+# ------------------------------------------------------------------------------------------------ containers of arrays
+def run_arrcont(case, cnt):
+    """Fifo and Stack whose element type is std.Array[BitVector[4], 2]; the pushed values are two-element slices of a larger
+    std.Array (starting at index 0 and at index 2), whole arrays and lists"""
+    n = case['n']
+    _n[0] += 1
+    cname = f"AC{_n[0]}"
+    src = pg.HEADER + f"""
+Pair = std.Array[BitVector[4], 2]
+
+class {cname}(Entity):
+    clk = Port.input(Bit)
+    rst = Port.input(Bit)
+    din = Port.input(BitVector[8])
+    cmd = Port.input(Unsigned[3])
+    s0 = Port.output(BitVector[4], default=Null)
+    s1 = Port.output(BitVector[4], default=Null)
+    f0 = Port.output(BitVector[4], default=Null)
+    f1 = Port.output(BitVector[4], default=Null)
+    def architecture(self):
+        ctx = std.SequentialContext(std.Clock(self.clk), std.Reset(self.rst))
+        stack = std.Stack[Pair, {n}](name='stk')
+        fifo = std.Fifo[Pair, {n + 1}](name='ff')
+        window = std.Array[BitVector[4], 4](name='window')
+        pair = std.Array[BitVector[4], 2](name='pair')
+        @std.concurrent
+        def logic():
+            window[0] <<= self.din[3:0]
+            window[1] <<= self.din[7:4]
+            window[2] <<= ~self.din[3:0]
+            window[3] <<= ~self.din[7:4]
+            pair[0] <<= self.din[7:4]
+            pair[1] <<= self.din[3:0]
+        @ctx
+        def proc_stack():
+            if self.cmd == 1:
+                stack.push(window[0:1])
+            elif self.cmd == 2:
+                stack.push(window[2:3])
+            elif self.cmd == 3:
+                stack.push(pair)
+            elif self.cmd == 4:
+                stack.push(window[1:2])
+            elif self.cmd == 5:
+                data = stack.pop()
+                self.s0 <<= data[0]
+                self.s1 <<= data[1]
+        @ctx
+        def proc_fifo():
+            if self.cmd == 1:
+                fifo.push(window[0:1])
+            elif self.cmd == 2:
+                fifo.push(window[2:3])
+            elif self.cmd == 3:
+                fifo.push(pair)
+            elif self.cmd == 4:
+                fifo.push(window[1:2])
+            elif self.cmd == 5:
+                data = fifo.pop()
+                self.f0 <<= data[0]
+                self.f1 <<= data[1]
+"""
+    try:
+        comp = compile_src(src, cname)
+    except Rejected as r:
+        cnt['rejected'] += 1
+        cnt['rejected:' + r.msg[:50]] += 1
+        return src, None
+    rnd = random.Random(case['seed'])
+    sim = comp.sim(init={'clk': 0, 'rst': 1, 'din': 0, 'cmd': 0})
+    sim.clock(n=2)
+    sim.set('rst', 0)
+    sim.events.clear()
+    model = []          # both containers receive the same commands: list used as stack and as queue (separate copies)
+    stk, que = [], []
+    bias = 0.6
+    for t in range(case.get('clocks', 1500) * case.get('scale', 1)):
+        if t % 200 == 0:
+            bias = rnd.choice([0.8, 0.5, 0.2])
+        d = rnd.getrandbits(8)
+        lo, hi = d & 15, d >> 4
+        w = [lo, hi, ~lo & 15, ~hi & 15]
+        can_push = len(stk) < n
+        can_pop = len(stk) > 0
+        r = rnd.random()
+        if can_push and (r < bias or not can_pop):
+            cmd = rnd.choice([1, 2, 3, 4])
+        elif can_pop and r < 0.95:
+            cmd = 5
+        else:
+            cmd = 0
+        sim.set('din', d); sim.set('cmd', cmd)
+        sim.clock()
+        if cmd in (1, 2, 3, 4):
+            e = {1: (w[0], w[1]), 2: (w[2], w[3]), 3: (hi, lo), 4: (w[1], w[2])}[cmd]
+            stk.append(e); que.append(e)
+            cnt['stack_ops'] += 1
+        elif cmd == 5:
+            es, eq = stk.pop(), que.pop(0)
+            got_s = (val(sim.get('s0')), val(sim.get('s1')))
+            got_q = (val(sim.get('f0')), val(sim.get('f1')))
+            cnt['stack_ops'] += 1
+            cnt['fifo_elements_transferred'] += 1
+            cnt['array_elements_compared'] += 2
+            if got_s != es:
+                return src, f"Stack of std.Array elements: pop at clock {t} returned {got_s}, pushed was {es}"
+            if got_q != eq:
+                return src, f"Fifo of std.Array elements: pop at clock {t} returned {got_q}, pushed was {eq}"
+    if sim.events.get('assert-failed'):
+        return src, f"std's own precondition assert fired: {sim.asserts_failed[-1]!r}"
+    cnt['arrcont_configs'] += 1
     return src, None
 
 
@@ -385,6 +531,9 @@ def run_case(case):
         if case['k'] == 'fifo2':
             src, m = run_fifo2(case, cnt)
             nontrivial = cnt.get('fifo_elements_transferred', 0) >= 100
+        elif case['k'] == 'arrcont':
+            src, m = run_arrcont(case, cnt)
+            nontrivial = cnt.get('array_elements_compared', 0) >= 100
         else:
             _n[0] += 1
             cname = f"CM{_n[0]}"
